@@ -252,7 +252,7 @@ def scenarios(rng, n_multi):
 def _scenario_worker(arg):
     lf, ws = arg
     try:
-        return [(lf, ws, f) for f in run_scenario(lf, ws)]
+        return [(lf, ws, f) for f in L.call_with_timeout(120, run_scenario, lf, ws)]
     except Exception as e:      # noqa: BLE001
         return [(lf, ws, ('pattern-purity', lf, 'harness-raised', f'{type(e).__name__}: {e}'))]
 
